@@ -93,7 +93,15 @@ impl<'a> ExpressionEvaluator<'a> {
         self.program().expect_next_token(Token::RightParen)?;
         self.program()
             .push_function_call_onto_stack_and_goto_it(function_name, bindings)?;
-        let value = self.evaluate_expression()?;
+        let value = match self.evaluate_expression() {
+            Ok(value) => value,
+            Err(err) => {
+                // Stay where we are, so the error is reported in the function's
+                // line, but don't leave our stack frame (and its bindings) behind.
+                self.program().discard_function_call_from_stack();
+                return Err(err);
+            }
+        };
         self.program()
             .pop_function_call_off_stack_and_return_from_it();
 
